@@ -1,0 +1,71 @@
+// +build verif
+
+package rafthttp
+
+// Verification hooks (build tag "verif" only): thin exported wrappers around
+// the unexported stream codecs so that an external harness can drive the real
+// encoders and decoders over arbitrary io.Writer / io.Reader values. Nothing
+// here changes behaviour; without the tag this file is not compiled.
+
+import (
+	"io"
+
+	"github.com/youzan/ZanRedisDB/pkg/types"
+	"github.com/youzan/ZanRedisDB/raft/raftpb"
+	"github.com/youzan/ZanRedisDB/stats"
+)
+
+// VerifMsgAppV2BufSize is the internal buffer size of the msgappv2 codec and
+// of the message decoder (entries / messages above it take the allocation path).
+const VerifMsgAppV2BufSize = msgAppV2BufSize
+
+// VerifReadBytesLimit is the size limit enforced by the message decoder.
+func VerifReadBytesLimit() uint64 { return readBytesLimit }
+
+// VerifEncoder wraps one of the two stream encoders.
+type VerifEncoder struct{ enc encoder }
+
+// Encode writes m with the wrapped encoder.
+func (e *VerifEncoder) Encode(m *raftpb.Message) error { return e.enc.encode(m) }
+
+// VerifDecoder wraps one of the two stream decoders.
+type VerifDecoder struct{ dec decoder }
+
+// Decode reads the next message with the wrapped decoder.
+func (d *VerifDecoder) Decode() (raftpb.Message, error) { return d.dec.decode() }
+
+// VerifNewMessageEncoder builds the encoder of the "message" stream exactly as
+// streamWriter.run does.
+func VerifNewMessageEncoder(w io.Writer) *VerifEncoder {
+	return &VerifEncoder{enc: &messageEncoder{w: w}}
+}
+
+// VerifNewMessageDecoder builds the decoder of the "message" stream exactly as
+// streamReader.decodeLoop does.
+func VerifNewMessageDecoder(r io.Reader) *VerifDecoder {
+	return &VerifDecoder{dec: newMessageDecoder(r)}
+}
+
+// VerifNewMsgAppV2Encoder builds the encoder of the "msgappv2" stream exactly
+// as streamWriter.run does (with private peer statistics).
+func VerifNewMsgAppV2Encoder(w io.Writer) *VerifEncoder {
+	return &VerifEncoder{enc: newMsgAppV2Encoder(w, &stats.PeerStats{})}
+}
+
+// VerifNewMsgAppV2Decoder builds the decoder of the "msgappv2" stream exactly
+// as streamReader.decodeLoop does: local is the receiving node id
+// (Transport.ID), remote the sending node id (peer id).
+func VerifNewMsgAppV2Decoder(r io.Reader, local, remote uint64) *VerifDecoder {
+	return &VerifDecoder{dec: newMsgAppV2Decoder(r, types.ID(local), types.ID(remote))}
+}
+
+// VerifLinkHeartbeatMessage returns a copy of the link-layer heartbeat message.
+func VerifLinkHeartbeatMessage() raftpb.Message { return linkHeartbeatMessage }
+
+// VerifIsLinkHeartbeatMessage exposes isLinkHeartbeatMessage.
+func VerifIsLinkHeartbeatMessage(m *raftpb.Message) bool { return isLinkHeartbeatMessage(m) }
+
+// VerifPickIsMsgAppV2 says whether peer.pick would route m to the msgappv2
+// stream when that stream is working (MsgSnap goes to the pipeline, MsgApp to
+// msgappv2, everything else to the message stream).
+func VerifPickIsMsgAppV2(m raftpb.Message) bool { return !isMsgSnap(m) && isMsgApp(m) }
